@@ -140,3 +140,87 @@ package main
 //@   ensures unexpired-kept: forall k string :: k != dialog && old(has(dbb.backends, k)) && old(dbb.backends[k]).expire >= now ==> has(dbb.backends, k)
 //@   ensures sweep-when-due: old(dbb.nextCleanTime) < old(now) ==> (forall k string :: k != dialog && has(dbb.backends, k) ==> dbb.backends[k].expire >= old(now))
 //@   ensures sweep-period: dbb.nextCleanTime <= old(dbb.nextCleanTime) || dbb.nextCleanTime <= now + dbb.timeout
+
+// ---- sending over TCP with fail-over (C20) ----
+// Ghost logs at the net boundary: wok/wbytes (connections and buffers of complete successful writes),
+// wfail (connections on which a write failed), closedC (closed connections), dials (dial outcomes).
+
+//@ func (*Message).Bytes
+//@   trusted within one send the message is not modified (frame-checked), so its bytes are a function of the message; the serialisation law itself belongs to C01
+//@   modifies nothing
+//@   ensures err == nil ==> result == msgBytesOf(m)
+//@   ensures (err != nil) == msgBytesFail(m)
+
+//@ func (*TCPClientTransport).Send
+//@   props C20
+//@   modifies t.conn, wok, wbytes, wfail, closedC, dials, dialok, cbcalls
+//@   ensures established: t.connectionEstablished != nil ==> len(cbcalls) >= len(old(cbcalls)) && len(dialok) >= len(old(dialok)) && cbcalls[len(old(cbcalls)):] == dialok[len(old(dialok)):]
+//@   ensures success: err == nil ==> wok == old(wok) ++ seq1(t.conn) && wbytes == old(wbytes) ++ seq1(msgBytesOf(msg)) && t.conn != nil
+//@   ensures failure: err != nil ==> wok == old(wok) && wbytes == old(wbytes)
+//@   ensures forgotten: err != nil ==> t.conn == nil || (t.conn == old(t.conn) && wfail == old(wfail) && dials == old(dials))
+//@   ensures bounded: len(wfail) <= len(old(wfail)) + 2 && len(dials) <= len(old(dials)) + 2
+//@   ensures unreachable: !t.reconnectable && old(t.conn) == nil ==> err != nil && wfail == old(wfail) && dials == old(dials)
+//@   ensures failed-closed: forall k int :: len(old(wfail)) <= k && k < len(wfail) ==> contains(closedC, wfail[k])
+//@   ensures healthy-direct: old(t.conn) != nil && err == nil && wfail == old(wfail) ==> t.conn == old(t.conn) && dials == old(dials)
+//@   ensures persistent: err != nil && !msgBytesFail(msg) && t.reconnectable ==> (len(dials) > len(old(dials)) && dials[len(dials)-1] == nil) || len(wfail) == len(old(wfail)) + 2
+//@   ensures redial-only-after-failure: old(t.conn) != nil && dials != old(dials) ==> len(wfail) > len(old(wfail))
+//@   loop 0:
+//@     invariant 0 <= i && i <= 2 && wok == old(wok) && wbytes == old(wbytes)
+//@     invariant len(wfail) <= len(old(wfail)) + i && len(wfail) >= len(old(wfail)) && len(dials) <= len(old(dials)) + i && len(dials) >= len(old(dials))
+//@     invariant i > 0 ==> t.conn == nil
+//@     invariant i == 0 ==> t.conn == old(t.conn) && wfail == old(wfail) && dials == old(dials)
+//@     invariant forall k int :: len(old(wfail)) <= k && k < len(wfail) ==> contains(closedC, wfail[k])
+//@     invariant b == msgBytesOf(msg)
+//@     invariant !t.reconnectable && old(t.conn) == nil ==> wfail == old(wfail) && dials == old(dials) && t.conn == nil
+//@     invariant i > 0 && old(t.conn) != nil ==> len(wfail) > len(old(wfail))
+//@     invariant t.reconnectable ==> len(wfail) == len(old(wfail)) + i
+//@     invariant t.connectionEstablished != nil ==> len(cbcalls) >= len(old(cbcalls)) && len(dialok) >= len(old(dialok)) && cbcalls[len(old(cbcalls)):] == dialok[len(old(dialok)):]
+//@     invariant !msgBytesFail(msg)
+
+//@ iface ClientTransport.Send
+//@   modifies TCPClientTransport.conn, UDPClientTransport.conn, FailOverClientTransport.primary, wok, wbytes, wfail, closedC, dials, dialok, cbcalls, ctsends
+//@   ensures ctsends == old(ctsends) ++ seq1(self)
+//@   ensures err == nil ==> len(wok) == len(old(wok)) + 1 && wbytes == old(wbytes) ++ seq1(msgBytesOf(msg))
+//@   ensures err != nil ==> wok == old(wok) && wbytes == old(wbytes)
+//@   ensures only-failover-touches-failover: !isType(self, "*FailOverClientTransport") ==> (forall f *FailOverClientTransport :: f.primary == old(f.primary))
+
+//@ func (*FailOverClientTransport).Send
+//@   props C20
+//@   requires flat: !isType(fct.primary, "*FailOverClientTransport") && !isType(fct.secondary, "*FailOverClientTransport")
+//@   modifies fct.primary, TCPClientTransport.conn, UDPClientTransport.conn, FailOverClientTransport.primary, wok, wbytes, wfail, closedC, dials, dialok, cbcalls, ctsends
+//@   ensures success: err == nil ==> len(wok) == len(old(wok)) + 1 && wbytes == old(wbytes) ++ seq1(msgBytesOf(msg))
+//@   ensures failure: err != nil ==> wok == old(wok) && wbytes == old(wbytes)
+//@   ensures primary-first: old(fct.primary) != nil ==> len(ctsends) > len(old(ctsends)) && ctsends[len(old(ctsends))] == old(fct.primary)
+//@   ensures at-most-two: len(ctsends) <= len(old(ctsends)) + 2
+//@   ensures primary-forgotten: old(fct.primary) != nil && len(ctsends) == len(old(ctsends)) + 2 ==> fct.primary == nil && ctsends[len(old(ctsends)) + 1] == fct.secondary
+//@   ensures primary-kept: err == nil && len(ctsends) == len(old(ctsends)) + 1 && old(fct.primary) != nil ==> fct.primary == old(fct.primary)
+//@   ensures secondary-used: old(fct.primary) == nil && fct.secondary != nil ==> ctsends == old(ctsends) ++ seq1(fct.secondary)
+//@   ensures nothing-to-try: old(fct.primary) == nil && fct.secondary == nil ==> err != nil && ctsends == old(ctsends)
+//@   ensures fallback: err != nil && fct.secondary != nil ==> ctsends[len(ctsends) - 1] == fct.secondary && len(ctsends) > len(old(ctsends))
+
+//@ callback ConnectionEstablished
+//@   modifies cbcalls
+//@   ensures cbcalls == old(cbcalls) ++ seq1(conn)
+
+//@ func (*TCPBackend).Send
+//@   props C20
+//@   requires t.connectionEstablished != nil
+//@   modifies t.conn, wok, wbytes, wfail, closedC, dials, dialok, cbcalls
+//@   ensures success: err == nil ==> wok == old(wok) ++ seq1(t.conn) && wbytes == old(wbytes) ++ seq1(msgBytesOf(msg)) && t.conn != nil
+//@   ensures failure: err != nil ==> wok == old(wok) && wbytes == old(wbytes)
+//@   ensures forgotten: err != nil ==> t.conn == nil || (t.conn == old(t.conn) && wfail == old(wfail) && dials == old(dials))
+//@   ensures bounded: len(wfail) <= len(old(wfail)) + 2 && len(dials) <= len(old(dials)) + 2
+//@   ensures failed-closed: forall k int :: len(old(wfail)) <= k && k < len(wfail) ==> contains(closedC, wfail[k])
+//@   ensures healthy-direct: old(t.conn) != nil && err == nil && wfail == old(wfail) ==> t.conn == old(t.conn) && dials == old(dials)
+//@   ensures persistent: err != nil && !msgBytesFail(msg) ==> len(wfail) + len(dials) >= len(old(wfail)) + len(old(dials)) + 2
+//@   ensures redial-only-when-needed: old(t.conn) != nil && dials != old(dials) ==> len(wfail) > len(old(wfail))
+//@   ensures established: len(cbcalls) >= len(old(cbcalls)) && len(dialok) >= len(old(dialok)) && cbcalls[len(old(cbcalls)):] == dialok[len(old(dialok)):]
+//@   loop 0:
+//@     invariant 0 <= i && i <= 2 && wok == old(wok) && wbytes == old(wbytes) && !msgBytesFail(msg) && b == msgBytesOf(msg)
+//@     invariant len(wfail) <= len(old(wfail)) + i && len(wfail) >= len(old(wfail)) && len(dials) <= len(old(dials)) + i && len(dials) >= len(old(dials))
+//@     invariant i > 0 ==> t.conn == nil
+//@     invariant i == 0 ==> t.conn == old(t.conn) && wfail == old(wfail) && dials == old(dials) && cbcalls == old(cbcalls)
+//@     invariant forall k int :: len(old(wfail)) <= k && k < len(wfail) ==> contains(closedC, wfail[k])
+//@     invariant i > 0 && old(t.conn) != nil ==> len(wfail) > len(old(wfail))
+//@     invariant len(wfail) + len(dials) >= len(old(wfail)) + len(old(dials)) + i
+//@     invariant len(cbcalls) >= len(old(cbcalls)) && len(dialok) >= len(old(dialok)) && cbcalls[len(old(cbcalls)):] == dialok[len(old(dialok)):]
